@@ -149,6 +149,7 @@ pub enum DiagnosticInfoMessage {
     NoTypeAnnotationInMappedType,
     CannotConvertExpr,
     MappedTypeMinusNotSupported,
+    MappedTypeAsClauseNotSupported,
     CannotNotResolveType(ModuleItemAddress),
     CannotNotResolveValue(ModuleItemAddress),
     CannotNotFindFile(BffFileName),
@@ -391,6 +392,9 @@ impl DiagnosticInfoMessage {
             }
             DiagnosticInfoMessage::MappedTypeMinusNotSupported => {
                 "Mapped type minus is not supported".to_string()
+            }
+            DiagnosticInfoMessage::MappedTypeAsClauseNotSupported => {
+                "Key remapping with `as` in a mapped type is not supported".to_string()
             }
             DiagnosticInfoMessage::CannotResolveRefInExtractUnion(r) => {
                 let name =r.diag_print();
